@@ -71,9 +71,13 @@ func newDataReader(c *Conn) *dataReader {
 func (r *dataReader) Read(b []byte) (n int, err error) {
 	if r.limited {
 		if r.n <= 0 {
-			return 0, ErrDataTooLarge
-		}
-		if int64(len(b)) > r.n {
+			// The budget is used up. Keep running the state machine so
+			// that an end-of-data marker right after the last allowed
+			// byte is still recognized, and fail as soon as another byte
+			// would have to be delivered.
+			var scratch [1]byte
+			b = scratch[:]
+		} else if int64(len(b)) > r.n {
 			b = b[0:r.n]
 		}
 	}
@@ -141,6 +145,10 @@ func (r *dataReader) Read(b []byte) (n int, err error) {
 			if c == '\r' {
 				r.state = stateCR
 			}
+		}
+		if r.limited && r.n <= 0 {
+			err = ErrDataTooLarge
+			break
 		}
 		b[n] = c
 		n++
